@@ -1,6 +1,6 @@
 (* C11 — Control-flow obfuscation preserves function behaviour (the logic a theorem can carry
    without a semantics of Go; the passes themselves are exercised by the differential check). *)
-From Verif Require Import Base.Bytes Model.Cfg Proofs.CfgProofs.
+From Verif Require Import Base.Bytes Model.Cfg Proofs.CfgProofs Model.Flatten Proofs.FlattenProofs.
 Open Scope N_scope.
 
 Theorem C11_dispatch_finds_target : forall table k t, NoDup (map fst table) -> In (k, t) table -> dispatch table k = Some t.
@@ -14,8 +14,53 @@ Proof. exact phi_swap_refuted. Qed.
 Theorem C11_trash_guard_never_true : forall a b o, In o (false_ops a b) -> cmp_eval o a b = false.
 Proof. exact trash_guard_never_true. Qed.
 
+(* applyFlattening as a graph transformation, for every graph, every block body and condition, every
+   key assignment with distinct non-zero keys: a call returns from block pc with program state s in
+   the flattened function iff it does in the original (so it also diverges iff the original does) *)
+Theorem C11_flatten_equivalent : forall (S : Type) (act : nat -> S -> S) (cond : nat -> S -> bool) (g : cfg) (keys : list N),
+  wf g = true -> (0 < length (all_edges g))%nat -> (length (all_edges g) <= length keys)%nat ->
+  NoDup (firstn (length (all_edges g)) keys) -> Forall (fun k => k <> 0) (firstn (length (all_edges g)) keys) ->
+  forall s r, (exists fuel, run S act cond g fuel (0%nat, 0, s) = Some r) <->
+              (exists fuel, run S act cond (flatten keys g) fuel (flat_entry g, 0, s) = Some r).
+Proof. exact flatten_equivalent. Qed.
+(* what the correspondence check evaluates on every graph dumped from applyFlattening: when the two
+   deciders answer true, the dumped result [real] is equivalent to the dumped input [g] *)
+Theorem C11_flatten_checked_instance : forall (S : Type) act cond keys g real,
+  hyps_okb keys g = true -> cfg_eqb (flatten keys g) real = true ->
+  forall s r, (exists fuel, run S act cond g fuel (0%nat, 0, s) = Some r) <->
+              (exists fuel, run S act cond real fuel (flat_entry g, 0, s) = Some r).
+Proof. exact flatten_checked_instance. Qed.
+(* the hypotheses are met and both sides compute on a concrete loop *)
+Example C11_flatten_example :
+  let g := [ {| baction := AOrig 0; bterm := TJump 1 |};
+             {| baction := AOrig 1; bterm := TIf (COrig 1) 1%nat 2%nat |};
+             {| baction := AOrig 2; bterm := TRet |} ] in
+  let keys := [3; 1; 2] in
+  let act := fun (a : nat) (s : nat) => match a with 1%nat => (s + 2)%nat | _ => Datatypes.S s end in
+  let cond := fun (c : nat) (s : nat) => Nat.ltb s 9%nat in
+  wf g = true /\ NoDup (firstn (length (all_edges g)) keys) /\ Forall (fun k => k <> 0) (firstn (length (all_edges g)) keys) /\
+  run nat act cond g 20 (0%nat, 0, 0%nat) = Some (2%nat, 10%nat) /\
+  run nat act cond (flatten keys g) 60 (flat_entry g, 0, 0%nat) = Some (2%nat, 10%nat).
+Proof.
+  cbv zeta. split; [reflexivity|]. split; [repeat constructor; cbn; intuition discriminate|].
+  split; [repeat constructor; discriminate|]. split; vm_compute; reflexivity.
+Qed.
+(* a key equal to 0 (the value the dispatcher variable holds on entry) breaks it: the hypothesis is needed *)
+Theorem C11_flatten_zero_key_refuted : exists g keys,
+  wf g = true /\ NoDup keys /\
+  run nat (fun _ s => Datatypes.S s) (fun _ _ => true) g 20 (0%nat, 0, 0%nat) <>
+  run nat (fun _ s => Datatypes.S s) (fun _ _ => true) (flatten keys g) 60 (flat_entry g, 0, 0%nat).
+Proof.
+  exists [ {| baction := AOrig 0; bterm := TJump 1 |}; {| baction := AOrig 1; bterm := TJump 2 |}; {| baction := AOrig 2; bterm := TRet |} ], [1; 0].
+  split; [reflexivity|]. split; [repeat constructor; cbn; intuition discriminate|]. vm_compute. discriminate.
+Qed.
+
 Print Assumptions C11_dispatch_finds_target.
 Print Assumptions C11_dispatch_no_spurious_target.
 Print Assumptions C11_phi_sequential_equals_parallel.
 Print Assumptions C11_phi_swap_refuted.
 Print Assumptions C11_trash_guard_never_true.
+Print Assumptions C11_flatten_equivalent.
+Print Assumptions C11_flatten_example.
+Print Assumptions C11_flatten_zero_key_refuted.
+Print Assumptions C11_flatten_checked_instance.
